@@ -56,6 +56,17 @@ func vh09Corpus() [][]vhsrvReq {
 		h = append(h, vhsrvReq{T: "Tattach", N: []uint64{uint64(i % 5), nf, 0}, S: vhsrvH("u", an)})
 	}
 	hs = append(hs, h)
+	// attach names on a server whose root the backend reports as a NON-directory (regular file, symlink): a name may
+	// not be walked from it; the bare root may still be attached
+	h = []vhsrvReq{v}
+	for i, md := range []uint32{uint32(ModeRegular) | 0o644, uint32(ModeSymlink) | 0o777, 0o644, uint32(ModeDirectory) | 0o755} {
+		for _, an := range []string{"x", "/d1", "d1/f1", "", "/"} {
+			h = append(h, vhsrvReq{T: "Tattach", N: []uint64{uint64(i), nf, 0}, S: vhsrvH("u", an),
+				FaultAns: &vhsrvAns{Valid: true, Mode: md, Qids: []uint64{uint64(40 + i)}}, FaultCall: 1})
+		}
+		h = append(h, vhsrvReq{T: "Twalk", N: []uint64{uint64(i), 5}, S: vhsrvH("d1")}, vhsrvReq{T: "Twalkgetattr", N: []uint64{uint64(i), 5}, S: vhsrvH("f1")})
+	}
+	hs = append(hs, h)
 	// walks whose intermediate components are files, symlinks, devices
 	h = []vhsrvReq{v, at}
 	for _, mid := range []string{"f1", "s1", "c1", "b1", "p1", "k1", "d1", "n1"} {
